@@ -408,6 +408,9 @@ impl World {
                     codec::T_FP => drop(a.remove::<Fingerprint>()),
                     codec::T_SOFTWARE => drop(a.remove::<Software>()),
                     codec::T_USERNAME => drop(a.remove::<UserName>()),
+                    codec::T_REALM => drop(a.remove::<stun_rs::attributes::stun::Realm>()),
+                    codec::T_NONCE => drop(a.remove::<stun_rs::attributes::stun::Nonce>()),
+                    codec::T_PRIORITY => drop(a.remove::<stun_rs::attributes::ice::Priority>()),
                     _ => {}
                 }
                 continue;
